@@ -13,7 +13,8 @@
 
 Require Import Arith List Bool QArith Qcanon.
 From TK Require Import Mat_Sums Mat_Core Mat_Qc Mat_EigSelect Spectral_KyFan Pencil_Model Pencil_Spec
-     Pencil_Proof_Sums Pencil_Proof Pencil_Proof_Rot Pencil_Proof_KyFan Pencil_Proof_Qc.
+     Pencil_Proof_Sums Pencil_Proof Pencil_Proof_Rot Pencil_Proof_KyFan Pencil_Proof_Qc
+     EigSelect Pencil_Proof_Tie.
 Import ListNotations.
 Local Open Scope F_scope.
 
@@ -202,6 +203,16 @@ Theorem select_cols_out_of_range :
   forall (F : Type) D d (V : mat F), (D < d)%nat -> select_cols D d V = OOB 3 d D.
 Proof. exact (@select_cols_oob). Qed.
 Print Assumptions select_cols_out_of_range.
+
+(* the model's selector is the expression translate/t_eig.py reads out of the smallest-eigenvalue arm of
+   generalized_eigendecomposition_impl_dense (generated table gen/EigSelect.v; base object of size N) *)
+Theorem selector_is_the_source_expression :
+  match filter is_gen_dense_smallest eig_table with
+  | [b] => match b_base b with BaseN => ops_eqb (b_cols b) gen_dense_cols | _ => false end
+  | _ => false
+  end = true.
+Proof. exact model_selector_is_generated. Qed.
+Print Assumptions selector_is_the_source_expression.
 
 Theorem npe_solution :
   forall (F : Type) (Fo : FieldOps F) (Ff : IsField F) D d N (X : mat F) (W : sparse F) (V P : mat F) lam,
